@@ -361,3 +361,30 @@ Proof.
   apply (rebindable_global_not_recorded open bs false top x m e s' ss' E); [|exact B].
   apply lp_expr_keeps_depth. discriminate.
 Qed.
+
+(* ------------------------------------------------------------------ the pure fragment *)
+From Aelys Require Import Model.Eval Model.PureEval Proofs.GlobalPropProofs.
+
+(* on expressions that neither call nor assign, the walk IS the substitution kernel and leaves the
+   scope stack alone ... *)
+Lemma lp_expr_pure o b d ss e : pure e = true ->
+  lp_expr o b d ss e = (subst_consts (known o d ss) e, ss).
+Proof.
+  induction e; cbn [pure]; intro H; try discriminate; cbn [lp_expr subst_consts]; try reflexivity.
+  - apply andb_true_iff in H as [H1 H2]. rewrite (IHe1 H1), (IHe2 H2). reflexivity.
+  - rewrite (IHe H). reflexivity.
+  - apply andb_true_iff in H as [H1 H2]. rewrite (IHe1 H1), (IHe2 H2). reflexivity.
+  - apply andb_true_iff in H as [H1 H2]. rewrite (IHe1 H1), (IHe2 H2). reflexivity.
+  - apply andb_true_iff in H as [H12 H3]. apply andb_true_iff in H12 as [H1 H2].
+    rewrite (IHe1 H1), (IHe2 H2), (IHe3 H3). reflexivity.
+Qed.
+
+(* ... so it preserves meaning wherever every recorded constant is the value its variable holds *)
+Theorem lp_expr_preserves_pure o b d ss rho e :
+  pure e = true ->
+  (forall x k, known o d ss x = Some k -> exists v, peval rho k = ROk v /\ rho x = Some v) ->
+  peval rho (fst (lp_expr o b d ss e)) = peval rho e /\ snd (lp_expr o b d ss e) = ss.
+Proof.
+  intros Hp A. rewrite lp_expr_pure by exact Hp. cbn [fst snd]. split; [|reflexivity].
+  apply subst_agree_preserves. exact A.
+Qed.
